@@ -50,7 +50,7 @@ def family():
     for cols in (["x"], ["x", "y"], ["y", "x"], ["g", "x"]):
         add("select_columns %s" % cols, lambda cols=cols: d().select_columns(cols))
         add("drop_columns %s" % cols, lambda cols=cols: d().drop_columns(cols))
-    for (cols, rev, lim) in ((["x"], None, None), (["y"], None, None), (["x", "y"], None, None), (["y", "x"], None, None), (["x"], ["x"], None), (["x", "y"], ["y"], None), (["x"], None, 1), (["x"], None, 2), (["x"], ["x"], 2)):
+    for (cols, rev, lim) in ((["x"], None, None), (["y"], None, None), (["x", "y"], None, None), (["y", "x"], None, None), (["x"], ["x"], None), (["x", "y"], ["y"], None), (["x"], None, 1), (["x"], None, 2), (["x"], ["x"], 2), (["x"], None, 0), ([], None, 2), ([], None, 0)):
         add("order_rows %s rev=%s lim=%s" % (cols, rev, lim), lambda cols=cols, rev=rev, lim=lim: d().order_rows(cols, reverse=rev, limit=lim))
     for m in ({"x": "a"}, {"x": "b"}, {"y": "a"}, {"x": "a", "y": "b"}, {"x": "a", "y": None}, {"x": "a", "g": None}):
         add("map_columns %s" % m, lambda m=m: d().map_columns(m))
